@@ -23,8 +23,10 @@ def build_tools(chk):
     return private_harness(), judge
 
 
-VARIANTS = {"row_sign": ["patch-row-sign.diff"], "fnode": ["patch-fnode.diff"],
-            "both": ["patch-row-sign.diff", "patch-fnode.diff"]}
+# Library variants carrying a candidate fix (corpus/C07/<file>.diff applied to a copy of src/PIP_Tree.cc), used
+# only to attribute a failure to the code a fix changes.  Empty since the row_sign and else-branch defects were
+# repaired in /repo (481d251, 7d069b5): a recurrence of either is now an ordinary VIOLATION.
+VARIANTS = {}
 
 
 def private_harness(variant=None):
@@ -270,21 +272,26 @@ def ops_before_step(ops, step):
 def attribute(v, T, bound):
     """Describe a failure by PREDICATES that state a root cause (each is computed here by a
     differential run or by the judge; none is a fingerprint of the input):
-      after_assign_of_solved_problem   the object was assigned (operator= -> m_swap) after a solve produced a tree
+      fails_with_assignment_but_not_with_copy_construction   the object was assigned (operator= -> m_swap) after a solve,
+                                       and the same history with the copy constructor in its place is judged correct
       incremental_only                 the failing step re-solves an object that already had a result, and the same
                                        problem solved from scratch by a fresh object is judged correct
-      vanishes_with_patch = X          the failure disappears when candidate fix X (corpus/C07/patch-*.diff) is applied
       terminates_under_another_strategy_setting   a timeout that does not occur under another CUTTING x PIVOT setting
       big_parameter / answer_not_affine_in_big_parameter   (judge) the exact answer is not affine in the big parameter"""
-    info = {"kind": v["kind"], "vanishes_with_patch": "none"}
+    info = {"kind": v["kind"]}
     pre = ops_before_step(v["ops"], v["step"])
     seen_solve = False
     for o in pre:
         if o[0] == "solve":
             seen_solve = True
         if o[0] == "assign" and seen_solve:
-            info["after_assign_of_solved_problem"] = True
-            return info
+            # the same history with the copy constructor in place of operator= (m_swap)
+            ops2 = [(["copy"] if x[0] == "assign" else x) for x in v["ops"]]
+            cv = [w for w in evaluate(T.exe, T.judge, [("cpy", ops2)], bound) if w["step"] == v["step"]]
+            if cv and cv[0]["kind"] is None:
+                info["fails_with_assignment_but_not_with_copy_construction"] = True
+                return info
+            break
     cur = v
     if v["step"] >= 2:
         fv = evaluate(T.exe, T.judge, [("fresh", fresh_case(v["snap"]))], bound)[0]
@@ -306,7 +313,7 @@ def attribute(v, T, bound):
                 if pv["kind"] != "timeout":
                     other = True
         info["terminates_under_another_strategy_setting"] = other
-    for name in ("row_sign", "fnode", "both"):
+    for name in sorted(VARIANTS):
         exe = T.variant(name)
         if exe is None:
             continue
@@ -470,4 +477,4 @@ def run(chk):
     chk.extra["valuations_compared"] = stats["valuations"]
     chk.extra["explanation"] = ("per valuation: Pip.eval_tree (extracted) on the tree printed by the library vs Pip.lexmin_ref "
                                 "(extracted, proved exact); failures are attributed by differential runs (fresh object, "
-                                "candidate-fix variants of PIP_Tree.cc) before being matched against known findings")
+                                "other strategy settings) before being matched against known findings")
